@@ -152,6 +152,25 @@ NEEDS = {
  'C16j': 'a while(true) whose body cannot complete and whose only continue sits inside a bare nested block, last in its function',
  'C17j': 'a string constant whose escaped text exceeds 72 characters with a \\xNN escape straddling a wrap position (.ascii lines wrapped)',
  'C18j': '--lint with `all_is_broken(); return <value>;` at the end of a block (statement kept only when linting)',
+ # eighth round (agents converge on shapes seen before: most are independent rediscoveries)
+ 'C01k': '`bytearr[g] = f()` with a bare mutable global index that f changes (index re-read after the check; same shape as C04g)',
+ 'C02k': 'try/undo whose body is `int d = !f(n); ...; return;` (defeat only inside an expression), handler falls through, code follows',
+ 'C03k': 'break/continue of a loop nested in a try/stop body, then defeat later in the same try (same shape as C03i/C03j)',
+ 'C04k': '`bytearr[g] = f()` with a bare mutable global index that f changes',
+ 'C05k': '`0 / x` / `0 % x` with a bare int variable x that is zero at run time',
+ 'C06k': 'a global initialiser or array length naming another global (same shape as C06g)',
+ 'C07k': 'unary + on a byte-typed variable (or a substituted const int) where a byte is required',
+ 'C08k': 'a block declaring an array that directly contains `preempt { continue; }` (or break/return) and falls off its end',
+ 'C09k': '`(x is byte) / 2` or `% 7` narrowed again to byte, with x outside 0..255',
+ 'C10k': 'a constant index below -len into a string literal / const string (uncaught IndexError)',
+ 'C11k': 'any `??` expression inside a while/for body of a you-function (context equality instead of containment)',
+ 'C12k': '`\\u{...}` zero-padded to seven or more hex digits',
+ 'C13k': 'two constant bool arrays with equal packed bytes and different lengths (same shape as C13i/C01j)',
+ 'C14k': 'a constant index in -len..-1 into a string literal or an all-constant array literal',
+ 'C15k': 'checked build: computed left operand in r0 and `"literal"[variable]` as right operand (length load moved under the guard)',
+ 'C16k': 'a user overload of all_is_win / all_is_broken with arguments, called at statement level (same shape as C16h/i)',
+ 'C17k': 'two const array literals of different element type with equal values (pooled by values only)',
+ 'C18k': 'an array literal mixing a byte element and int literals, used untyped, under some PYTHONHASHSEEDs (same shape as C18/C18g)',
 }
 ALSO = {'C01d': ['C18'], 'C04c': ['C01'], 'C04d': ['C13'], 'C14c': [], 'C13c': ['C10'], 'C16d': ['C03'], 'C17d': ['C01'], 'C09c': ['C02'], 'C09d': ['C01'], 'C18b': ['C01'], 'C17': ['C04'], 'C15': ['C02'], 'C09b': ['C14'], 'C07b': [], 'C16': ['C03']}
 
